@@ -163,16 +163,19 @@ fn roundtrip_leaves() -> R {
         ("float", 1.5f64.into()), ("reducible float", 42.0f64.into()), ("f32", 3.25f32.into()), ("long float", 1.1f64.into()), ("inf", f64::INFINITY.into()), ("nan", f64::NAN.into()),
         ("text", "hello".into()), ("empty text", "".into()), ("non-ascii", "\u{e9}\u{6c34}\u{1f600}".into()), ("long text", "x".repeat(300).into()),
         ("bytes", CBOR::to_byte_string([1u8, 2, 3])), ("32 bytes (looks like a digest)", CBOR::to_byte_string([9u8; 32])),
+        ("bytes that are one encoded item (h'01')", CBOR::to_byte_string([0x01u8])), ("bytes that are one encoded item (h'182a')", CBOR::to_byte_string([0x18u8, 0x2a])), ("bytes that are encoded text", CBOR::to_byte_string([0x61u8, 0x61])),
+        ("bytes holding a serialized envelope", CBOR::to_byte_string(Envelope::new("inner").add_assertion("p", "o").tagged_cbor().to_cbor_data())),
         ("true", true.into()), ("false", false.into()), ("null", CBOR::null()),
         ("array", vec![1u8, 2].into()), ("nested array", vec![CBOR::from(1u8), vec![2u8, 3].into()].into()), ("empty array", Vec::<u8>::new().into()),
         ("map", { let mut m = Map::new(); m.insert(1u8, "a"); m.insert("b", 2u8); m.into() }), ("empty map", Map::new().into()),
         ("tagged", CBOR::to_tagged_value(100u64, "x")), ("tag 200 inside a leaf", CBOR::to_tagged_value(200u64, CBOR::to_tagged_value(201u64, "inner"))),
         ("date", dcbor::Date::from_timestamp(1_700_000_000.0).into()), ("fractional date", dcbor::Date::from_timestamp(0.5).into()), ("negative date", dcbor::Date::from_timestamp(-1.0).into()),
         ("unsigned that looks like a known value", 5u8.into()),
+        ("KNOWN value 2^32-1", u32::MAX.into()), ("KNOWN value 2^32", (1u64 << 32).into()), ("KNOWN value u64::MAX", u64::MAX.into()), ("KNOWN value 65536", 65536u32.into()),
     ];
     let (name, v) = &vals[choice(vals.len())];
     rt::note(*name);
-    let leaf = Envelope::new(v.clone());
+    let leaf = if name.starts_with("KNOWN") { Envelope::new(KnownValue::new(u64::try_from(v.clone()).unwrap())) } else { Envelope::new(v.clone()) };
     let pos = choice(4);
     let e = match pos {
         0 => leaf.clone(),
@@ -214,6 +217,8 @@ fn variants(c: &CBOR) -> Vec<(String, CBOR)> {
             for i in 1..v.len() { let mut w = v.clone(); w[i] = junk_leaf.clone(); out.push((format!("leaf in assertion slot {}", i), arr(w)));
                                   let mut w = v.clone(); w[i] = 7u8.into(); out.push((format!("known value in assertion slot {}", i), arr(w)));
                                   let mut w = v.clone(); w[i] = CBOR::to_tagged_value(200u64, v[i].clone()); out.push((format!("wrapped assertion in assertion slot {}", i), arr(w))); }
+            for i in 1..v.len() { let mut w = v.clone(); w[i] = arr(vec![junk_leaf.clone(), v[i].clone()]); out.push((format!("node with a leaf subject (carrying the assertion) in assertion slot {}", i), arr(w)));
+                                  let mut w = v.clone(); w[i] = arr(vec![CBOR::from(9u8), v[i].clone()]); out.push((format!("node with a known-value subject in assertion slot {}", i), arr(w))); }
             { let mut w = v.clone(); w.push(junk_leaf.clone()); out.push(("array extended by a leaf".into(), arr(w))); }
             for (i, x) in v.iter().enumerate() { for (d, y) in variants(x) { let mut w = v.clone(); w[i] = y; out.push((format!("[{}] {}", i, d), arr(w))); } }
         }
@@ -240,6 +245,22 @@ fn variants(c: &CBOR) -> Vec<(String, CBOR)> {
                         if v.len() == 4 { let w = v[..3].to_vec(); out.push(("obscured element without its digest".into(), CBOR::to_tagged_value(t.value(), arr(w)))); }
                     }
                     out.push(("obscured element retagged".into(), CBOR::to_tagged_value(t.value() + 10, inner.clone())));
+                    if let CBORCase::Array(v) = inner.as_case() {
+                        if v.len() == 4 {
+                            // the digest field present but malformed
+                            let raw32 = CBOR::to_byte_string([0x11u8; 32]);
+                            let fields: Vec<(&str, CBOR)> = if t.value() == 40002 {
+                                let CBORCase::ByteString(aad) = v[3].as_case() else { return out };
+                                let aad: &[u8] = aad.as_ref();
+                                vec![("digest field without its tag bytes", CBOR::to_byte_string(&aad[3..])), ("digest field truncated by one byte", CBOR::to_byte_string(&aad[..aad.len() - 1])),
+                                     ("digest field replaced by arbitrary bytes", CBOR::to_byte_string(b"xyz")), ("digest field holding other CBOR", CBOR::to_byte_string(CBOR::from("text").to_cbor_data()))]
+                            } else {
+                                vec![("digest field untagged", raw32.clone()), ("digest field with another tag", CBOR::to_tagged_value(40000u64, raw32.clone())), ("digest field of 31 bytes", CBOR::to_tagged_value(40001u64, CBOR::to_byte_string([0x11u8; 31]))), ("digest field replaced by text", "x".into())]
+                            };
+                            for (d, f) in fields { let mut w = v.clone(); w[3] = f; out.push((format!("obscured element with {}", d), CBOR::to_tagged_value(t.value(), arr(w)))); }
+                            let mut w = v.clone(); w.push(CBOR::from(1u8)); out.push(("obscured element with a fifth field".into(), CBOR::to_tagged_value(t.value(), arr(w))));
+                        }
+                    }
                 }
                 _ => {}
             }
@@ -370,7 +391,7 @@ pub fn prop_c05() -> Prop {
                 bounds: "every shape of <=7 (quick) / <=9 (thorough) elements with known values + 16 larger shapes + every shape of <=4 (5) elements with obscured elements, each with 0, 1 or 2 further positions (any) elided / encrypted / compressed x every digest order: CBOR, UR and untagged routes; identical, same case and digest at every position, same bytes after re-encoding",
                 api: &["tagged_cbor", "untagged_cbor", "try_from_cbor_data", "from_untagged_cbor", "ur_string", "from_ur_string", "is_identical_to", "PartialEq"] },
             Scenario { name: "leaf_types", f: roundtrip_leaves, thorough_only: false,
-                bounds: "34 leaf values over every CBOR type (integer widths, negative, floats incl. reducible / inf / nan, text incl. non-ASCII and 300 chars, byte strings incl. 32 bytes, bool, null, arrays, maps, tagged incl. tag 200 inside a leaf, dates) x 4 positions. Catalogue, not solver-quantified",
+                bounds: "42 leaf / known values over every CBOR type (incl. byte strings that are themselves one encoded item or a serialized envelope, known values beyond 2^32) (integer widths, negative, floats incl. reducible / inf / nan, text incl. non-ASCII and 300 chars, byte strings incl. 32 bytes, bool, null, arrays, maps, tagged incl. tag 200 inside a leaf, dates) x 4 positions. Catalogue, not solver-quantified",
                 api: &["Envelope::new(CBOR)", "try_from_cbor_data", "ur_string", "from_ur_string"] },
         ],
         assumptions: COMMON_ASSUMPTIONS.to_vec(),
